@@ -484,6 +484,8 @@ func (t *WeightedMerkleTrie) RollbackTrie(node Node) {
 		batcher.Commit(false) //nolint:errcheck
 	}
 	t.created = nil
+	// like Rollback: the nodes the rolled-back changes released are live again
+	t.tempDeleted = nil
 	clear(t.deleted)
 }
 
